@@ -44,6 +44,15 @@ CLAIMS = {
  "C20": ("other", "polynomial identities over symbolic matrix entries (go/ssa abstract interpretation + exact normal forms)",
    "MulV, MulM, Transpose, Dot, MulS equal the textbook polynomials; Inverse satisfies M*N = N*M = I as 18 identities of rational functions with the Leibniz determinant as the only guard (panic iff det == 0); the primaries generator maps (1,1,1) to the white XYZ and each column is parallel to its primary for all 12 chromaticity inputs; the from-matrix is Inverse(to-matrix) on the same arguments. Decides the algebra for every input; float64 rounding of these identities is not analysed.",
    "Trusted: go/ssa, the interpreter, polynomial arithmetic. Not decided: the 1e-9*cond figure, exact-cancellation behaviour for exactly singular float inputs.", "DESIGN.md §4 C20"),
+ "C10": ("other", "abstract interpretation of one generic iteration of every worker closure (go/ssa): loop-bound/stride facts, write-target analysis, bit provenance of stored bytes",
+   "For every pixel index and every parallelism at once: the four worker closures of TransformImageColor stripe the source rectangle into residue classes of rows (a partition), write exactly the bytes of destination pixel p+offset (or one dst.Set) and nothing else, with the value transformColor(src.At(p)) laid out as the destination colour model's conversion; the dispatcher has a generic default arm; the eight Linearise/EncodeImage wrappers pass their own package's per-colour function with no shortcut. In-place safety and fast-path/generic agreement follow.",
+   "Trusted: go/ssa, the interpreter's loop summaries, go-parallel's RunWorkers contract, image.PixOffset injectivity and Pix layouts. Not decided: dst smaller than src (excluded by the statement), exotic image wrappers' At vs RGBA64At.", "DESIGN.md §4 C10"),
+ "C11": ("other", "program-wide who-may-write analysis on package-level variables + dominance of sync.Once.Do over every load (go/ssa); worker write-footprint analysis",
+   "Memory-model argument decided on the SSA of the whole module: lazily initialised tables are written only inside a Once.Do closure and every load is dominated by Do on the same Once; all other package-level state is written only during initialisation; Once values are only Do receivers; worker closures write only pixels of their own rows and no captured variable; nothing reachable from the loaders writes shared state; no go statements. This covers all interleavings including concurrent first use, which a race-detector run samples only per observed schedule.",
+   "Trusted: Go memory model for sync.Once and goroutine start/WaitGroup, go-parallel's contract. Not decided: races inside caller-supplied images/readers.", "DESIGN.md §4 C11"),
+ "C15": ("other", "abstract interpretation of the three conversion helpers with type-switch paths forked and one generic iteration per worker closure; byte provenance vs the image/color conversion definitions",
+   "For every pixel index and parallelism: identity arms return the same instance untouched; outputs are allocated with the input's Rect; workers stripe the rectangle (partition); byte shuffles are RGBA64->RGBA out[k]=in[2k], RGBA->RGBA64 out[2k]=out[2k+1]=in[k], NRGBA/YCbCr->RGBA64 SetRGBA64 of RGBA() positionally (A=65535 for YCbCr), YCbCr->NRGBA SetNRGBA of YCbCrToRGB with A=255, all at the same (j,i) for input and output; the input is never written; the fallback is exactly draw.Draw(out, out.Rect, img, out.Rect.Min, draw.Src).",
+   "Trusted: image constructors return fresh images with Rect = argument, image/color conversion definitions, go-parallel. Not decided: equality with draw.Draw's own implementation on all stdlib types (a fact about image/draw), e.g. YCbCrToRGB vs YCbCr.RGBA()>>8.", "DESIGN.md §4 C15"),
 }
 
 PENDING_REASON = "check not built yet in this revision (static rules designed in DESIGN.md §4; see git log) — not claimed until the checker for it is committed"
